@@ -7,7 +7,7 @@ PLAIN_FLAGS = $(COMMON) -O2 -DNDEBUG
 ASAN_FLAGS = $(COMMON) -O1 -g -DTBFSIM_ASAN -fsanitize=address,undefined -fsanitize-recover=address -fno-sanitize-recover=undefined -fno-omit-frame-pointer
 
 CORE_SRC = sim/core.cpp sim/gompsim.cpp sim/probe.cpp sim/oracles.cpp sim/gen.cpp sim/recipes.cpp sim/main.cpp
-WORLD_SRC = sim/w_morton.cpp sim/w_periodic.cpp sim/w_hilbert.cpp sim/w_specx.cpp sim/w_starpu.cpp
+WORLD_SRC = sim/w_morton.cpp sim/w_periodic.cpp sim/w_hilbert.cpp sim/w_specx.cpp sim/w_starpu.cpp sim/w_numeric.cpp
 SRC = $(CORE_SRC) $(WORLD_SRC)
 
 PLAIN_OBJ = $(patsubst sim/%.cpp,$(BUILD)/plain/%.o,$(SRC))
@@ -19,9 +19,9 @@ asan: $(BUILD)/tbfsim_asan
 
 # NOTE: linked WITHOUT libgomp on purpose: -fopenmp is given at compile time only, gompsim.cpp provides the runtime.
 $(BUILD)/tbfsim_plain: $(PLAIN_OBJ)
-	$(CXX) -o $@ $^ -lpthread
+	$(CXX) -o $@ $^ -lfftw3 -lfftw3f -lpthread
 $(BUILD)/tbfsim_asan: $(ASAN_OBJ)
-	$(CXX) -o $@ $^ -fsanitize=address,undefined -lpthread
+	$(CXX) -o $@ $^ -fsanitize=address,undefined -lfftw3 -lfftw3f -lpthread
 
 $(BUILD)/plain/w_specx.o $(BUILD)/asan/w_specx.o: EXTRA = -Isim/stubs/specx
 $(BUILD)/plain/w_starpu.o $(BUILD)/asan/w_starpu.o: EXTRA = -Isim/stubs/starpu
